@@ -401,6 +401,54 @@ Definition netsim_message (m : Z * list Z) : option (list Z) := Some (fst m :: s
 Definition netsim_connection (t : table) (s : parser) (msgs : list (Z * list Z)) :=
   ws_messages t reset (map netsim_message msgs).
 
+(* ------------------------------------------------------------------ several parsers
+   Several PacketParser objects alive in one process (two transports, both sides of a
+   bridge, a server and a client): each object has its OWN state / bytes_needed / packet /
+   packet_info (instance attributes assigned by reset(), a fresh bytearray each time).
+   An operation addresses one parser: feed_data(d), or reset() / construction of a new
+   parser in that slot (connection_made of a server transport).  The run interleaves the
+   operations of all parsers in the given order. *)
+Inductive mop := MFeed (i : nat) (d : list Z) | MReset (i : nat).
+
+Definition mop_idx (o : mop) : nat := match o with MFeed i _ => i | MReset i => i end.
+
+Definition own_step (t : table) (s : parser) (o : mop) : parser * list out :=
+  match o with
+  | MFeed _ d => let '(s1, o1, _) := feed t s d in (s1, o1)
+  | MReset _ => (reset, [])
+  end.
+
+Fixpoint update (i : nat) (x : parser) (l : list parser) : list parser :=
+  match l, i with
+  | [], _ => []
+  | _ :: r, O => x :: r
+  | y :: r, S i' => y :: update i' x r
+  end.
+
+Fixpoint multi_run (t : table) (ss : list parser) (ops : list mop)
+  : list parser * list (nat * list out) :=
+  match ops with
+  | [] => (ss, [])
+  | o :: r =>
+      let i := mop_idx o in
+      let '(s1, o1) := own_step t (nth i ss reset) o in
+      let '(ss2, o2) := multi_run t (update i s1 ss) r in (ss2, (i, o1) :: o2)
+  end.
+
+(* one parser alone on its own operations *)
+Fixpoint solo_run (t : table) (s : parser) (ops : list mop) : parser * list (list out) :=
+  match ops with
+  | [] => (s, [])
+  | o :: r =>
+      let '(s1, o1) := own_step t s o in
+      let '(s2, o2) := solo_run t s1 r in (s2, o1 :: o2)
+  end.
+
+Definition ops_of (i : nat) (ops : list mop) : list mop :=
+  filter (fun o => Nat.eqb (mop_idx o) i) ops.
+Definition outs_of (i : nat) (l : list (nat * list out)) : list (list out) :=
+  map snd (filter (fun x => Nat.eqb (fst x) i) l).
+
 (* ------------------------------------------------------------------ evaluation support
    (used only by tools/harness/c02.py to keep case literals and results small) *)
 
@@ -436,6 +484,8 @@ Definition out_digest (o : out) : Z * (Z * Z * list Z) :=
   | Error ty => (1, (ty, 0, []))
   end.
 Definition outs_digest (l : list (list out)) := map (map out_digest) l.
+Definition multi_digest (l : list (nat * list out)) :=
+  map (fun x => (Z.of_nat (fst x), map out_digest (snd x))) l.
 Definition st_code (s : status) : Z := match s with Ok => 0 | Raised => 1 | OutOfFuel => 2 end.
 Definition rres_digest (r : rres) : Z * Z :=
   match r with
